@@ -17,7 +17,7 @@ func init() {
 		Stages: []Stage{
 			{Name: "schedules", Pkg: "./pkg/station/lib", Run: "^TestVerifC09Schedules$", Drivers: []string{"lib"}, HangIsViol: true, TimeoutQ: 10 * time.Minute, TimeoutT: 60 * time.Minute},
 			{Name: "linearizability", Pkg: "./pkg/station/lib", Run: "^TestVerifC09Linearizability$", Drivers: []string{"lib"}, Files: []string{"c09lin"}, HangIsViol: true, TimeoutQ: 10 * time.Minute, TimeoutT: 30 * time.Minute},
-			{Name: "shutdown", Pkg: "./pkg/station/lib", Run: "^TestVerifC09(Shutdown|ShutdownSustained|SharePeer)$", Drivers: []string{"lib"}, HangIsViol: true, TimeoutQ: 10 * time.Minute, TimeoutT: 30 * time.Minute},
+			{Name: "shutdown", Pkg: "./pkg/station/lib", Run: "^TestVerifC09(Shutdown|ShutdownSustained|ShutdownDualStack|SharePeer)$", Drivers: []string{"lib"}, HangIsViol: true, TimeoutQ: 10 * time.Minute, TimeoutT: 30 * time.Minute},
 			{Name: "overload", Pkg: "./pkg/station/lib", Run: "^TestVerifC09Overload$", Drivers: []string{"lib"}, HangIsViol: true, TimeoutQ: 10 * time.Minute, TimeoutT: 30 * time.Minute},
 			{Name: "stress", Pkg: "./pkg/station/lib", Run: "^TestVerifC09Stress$", Drivers: []string{"lib"}, Race: true, HangIsViol: true, TimeoutQ: 10 * time.Minute, TimeoutT: 30 * time.Minute,
 				Repeat: 2, RepeatT: 6, RaceFilter: c09RaceFilter, RaceSig: c09RaceSig},
